@@ -149,6 +149,8 @@ def do_run(ids, in_repo=False, tier='quick', budget=None, extra_props=None, seed
                     r = subprocess.run([os.path.join(VERIF, 'check'), prop, '--tier', tier], capture_output=True, text=True, env=envv, timeout=7200)
                     lines = [l.strip() for l in r.stdout.splitlines() if l.strip().startswith('clause=') or l.startswith('HARNESS')]
                     verdict = {0: 'MISSED', 1: 'CAUGHT'}.get(r.returncode, 'ERROR(%d)' % r.returncode)
+                    if verdict == 'CAUGHT' and 'VIOLATION property=' not in r.stdout:
+                        verdict = 'ERROR(exit 1 without a VIOLATION line)'
                     meta.setdefault('my_checks', {})[prop + ':' + tier + ('' if seed is None else ':seed%s' % seed)] = {'verdict': verdict, 'how': ('git -C /repo apply; ./check; git -C /repo checkout -- .' if in_repo else
                                                                            'scratch copy of /repo/py34 with the patch applied, BACPYPES_SRC=<copy> ./check %s --tier %s' % (prop, tier)),
                                                                   'first_violations': lines[:3], 'summary': r.stdout.strip().splitlines()[-1] if r.stdout.strip() else ''}
